@@ -23,8 +23,8 @@ S = fixtures.SUBCLASSES
 PL, PT, PS, PF, PD = S[list][0], S[tuple][0], S[set][0], S[frozenset][0], S[dict][0]
 
 KINDS = ['list', 'tuple', 'set', 'frozenset', 'dict-int', 'dict-str', 'dict-bytes', 'dict-tuple',
-         'PlainList', 'PlainDict', 'PlainSet', 'call', 'call-hug', 'call-kw']
-KINDS_REDUCED = ['list', 'tuple', 'frozenset', 'dict-int', 'dict-str', 'PlainList', 'call', 'call-hug']
+         'PlainList', 'PlainDict', 'PlainSet', 'call', 'call-hug', 'call-kw', 'call-sublist', 'call-namedtuple', 'selfnest']
+KINDS_REDUCED = ['list', 'tuple', 'frozenset', 'dict-int', 'dict-str', 'PlainList', 'call', 'call-hug', 'call-sublist', 'selfnest']
 NEEDS_HASHABLE_CHILDREN = {'set', 'frozenset', 'PlainSet'}
 HASHABLE_KINDS = {'tuple', 'frozenset'}
 
@@ -108,11 +108,42 @@ class Builder:
             return Call(children)          # sole list argument: hugged
         if kind == 'call-kw':
             return Call(**{'kw%d' % i: c for i, c in enumerate(children)})
+        if kind == 'call-sublist':
+            return Call(PL(children))      # the sole argument is a list *subclass*: printed by its own printer, not hugged
+        if kind == 'call-namedtuple':
+            return Call(fixtures.NT(children[0], 0))
+        if kind == 'selfnest':
+            return SelfNest(*children)     # its printer takes a nesting level itself before delegating
         raise ValueError(kind)
 
 
 class Skip(Exception):
     pass
+
+
+class SelfNest:
+    """A user type whose printer calls ctx.nested_call() itself and then delegates to
+    pretty_call_alt (as the bundled numpy printer does): it occupies one more nesting level."""
+
+    def __init__(self, *args):
+        self.args = args
+
+    def __verif_expr__(self):
+        return 'SelfNest(%s)' % ', '.join(oracles.expr_of(a) for a in self.args)
+
+
+_sn = []
+
+
+def ensure_selfnest():
+    if _sn:
+        return
+    from prettyprinter import register_pretty, pretty_call_alt
+
+    @register_pretty(SelfNest)
+    def pretty_selfnest(v, ctx):
+        return pretty_call_alt(ctx.nested_call(), SelfNest, args=v.args)
+    _sn.append(1)
 
 
 def gen_values(nmax, maxh, kinds):
@@ -142,8 +173,12 @@ def placeholder_text(v):
         return t.__name__ + '(...)'
     if t is Call:
         return q(Call) + '(...)'
+    if t is SelfNest:
+        return q(SelfNest) + '(...)'
     if isinstance(v, list):
         return q(t) + '([...])'
+    if isinstance(v, tuple) and hasattr(t, '_fields'):
+        return q(t) + '(...)'
     if isinstance(v, tuple):
         return q(t) + '((...))'
     if isinstance(v, dict):
@@ -162,12 +197,27 @@ def is_leaf(v):
 def expected(node, v, k, d, lenient, stats):
     """The expected AST node for value v (printed as `node` without a limit) at level k."""
     stats['maxk'] = max(stats['maxk'], k)
+    if type(v) is SelfNest:
+        k += 1                  # the printer consumed a level itself
+        stats['maxk'] = max(stats['maxk'], k)
     if d is not None and k >= d:
         stats['cut'] += 1
         return placeholder(v)
     if is_leaf(v):
         return node
     node = copy.copy(node)
+    if type(v) is SelfNest:
+        hug = len(v.args) == 1 and type(v.args[0]) in (list, dict, tuple)
+        node.args = [expected(a, x, k if hug else k + 1, d, lenient, stats) for a, x in zip(node.args, v.args)]
+        return node
+    if isinstance(v, tuple) and hasattr(type(v), '_fields'):
+        kws = []
+        for kw, x in zip(node.keywords, v):
+            kw = copy.copy(kw)
+            kw.value = expected(kw.value, x, k + 1, d, lenient, stats)
+            kws.append(kw)
+        node.keywords = kws
+        return node
     if type(v) is Call:
         hug = len(v.args) == 1 and not v.kwargs and type(v.args[0]) in (list, dict, tuple)
         node.args = [expected(a, x, k if hug else k + 1, d, lenient, stats) for a, x in zip(node.args, v.args)]
@@ -253,6 +303,7 @@ def check_value(v, part, widths):
 
 def work(item):
     fixtures.register()
+    ensure_selfnest()
     nmax, maxh, kname, lo, hi = item
     kinds = KINDS if kname == 'full' else KINDS_REDUCED
     part = core.Part()
@@ -266,8 +317,9 @@ def work(item):
 
 def run(tier, seed):
     fixtures.register()
+    ensure_selfnest()
     res = core.Result(PROPERTY, LEVEL, tier, seed)
-    plan = [(5, 4, 'full'), (6, 4, 'reduced')] if tier == 'quick' else [(6, 4, 'full'), (7, 4, 'reduced')]
+    plan = [(4, 4, 'full'), (5, 4, 'reduced')] if tier == 'quick' else [(5, 4, 'full'), (6, 4, 'reduced')]
     items, desc = [], []
     for nmax, maxh, kname in plan:
         kinds = KINDS if kname == 'full' else KINDS_REDUCED
@@ -289,8 +341,10 @@ def run(tier, seed):
 
 def replay(case):
     fixtures.register()
+    ensure_selfnest()
     env = dict(fixtures.namespace())
     env.update({c.__name__: c for cs in fixtures.SUBCLASSES.values() for c in cs})
+    env.update({'SelfNest': SelfNest, 'NT': fixtures.NT})
     v = eval(case['value'], env)
     part = core.Part()
     check_value(v, part, (case['config']['width'],))
